@@ -1517,11 +1517,15 @@ impl Db {
 	}
 
 	/// Open or create. A database created by this call is in format `version`, an existing one in
-	/// another format is refused. The metadata is looked at and written with the lock held.
+	/// another format, or with another salt than `options.salt`, is refused. The metadata is looked at and written with the lock held.
 	pub(crate) fn open_or_create_in_version(options: &Options, version: u32) -> Result<Db> {
 		let db = Self::open_inner_in_version(options, OpeningMode::Create, Some(version))?;
 		if db.inner.db_version != version {
 			return Err(Error::Migration("Source and dest format version mismatch".into()))
+		}
+		// An existing database keeps its own salt: it has to be the one that is asked for.
+		if options.salt.is_some() && db.inner.options.salt != options.salt {
+			return Err(Error::Migration("Source and dest salt mismatch".into()))
 		}
 		Ok(db)
 	}
